@@ -5,14 +5,14 @@ package upload
 
 import (
 	realjson "encoding/json"
-	"io"
-	"log"
 	"math"
 	"time"
 
 	"golang.org/x/telemetry/internal/counter"
 	"golang.org/x/telemetry/internal/telemetry"
 	"golang.org/x/telemetry/internal/vrt"
+	"golang.org/x/telemetry/internal/vrt/vconfigstore"
+	"golang.org/x/telemetry/internal/vrt/vcounter"
 	"golang.org/x/telemetry/internal/vrt/vhttp"
 	"golang.org/x/telemetry/internal/vrt/vjson"
 	"golang.org/x/telemetry/internal/vrt/vos"
@@ -26,6 +26,8 @@ func vuReset() {
 	vos.Reset()
 	vhttp.Reset()
 	vjson.Reset()
+	vcounter.Reset()
+	vconfigstore.Reset()
 	vos.AddDir(vuDir + "/local")
 	vos.AddDir(vuDir + "/upload")
 }
@@ -39,15 +41,14 @@ func vuUploader(cfg *telemetry.UploadConfig, start time.Time) *uploader {
 	if cfg == nil {
 		cfg = &telemetry.UploadConfig{}
 	}
-	u := &uploader{
-		config:          cfg,
-		configVersion:   "v1.2.3",
-		dir:             telemetry.NewDir(vuDir),
-		uploadServerURL: "http://srv",
-		startTime:       start,
-		logger:          log.New(io.Discard, "", 0),
+	// the real constructor (log file, caches and whatever else it sets up), then the
+	// configuration under test whatever the mode file says
+	vconfigstore.Config = cfg
+	u, err := newUploader(RunConfig{TelemetryDir: vuDir, UploadURL: "http://srv", StartTime: start})
+	if err != nil {
+		panic("newUploader: " + err.Error())
 	}
-	u.cache.m = map[string]*counter.File{}
+	u.config, u.configVersion = cfg, "v1.2.3"
 	return u
 }
 
@@ -61,7 +62,7 @@ var vuBuilds = []vuBuild{
 
 // vuAddCountFile installs a counter file spanning [beginDay, endDay) for the build with
 // the given counters: the file exists in the file system and its parse result is
-// preloaded into the uploader's cache (counter.Parse itself is the subject of C06).
+// registered with vcounter under the file's content token (counter.Parse itself is the subject of C06).
 func vuAddCountFile(u *uploader, base string, beginDay, endDay int64, b vuBuild, counts map[string]uint64) string {
 	path := vuDir + "/local/" + base + ".v1.count"
 	vos.AddFile(path, []byte("count:"+base))
@@ -73,18 +74,14 @@ func vuAddCountFile(u *uploader, base string, beginDay, endDay int64, b vuBuild,
 	f.Meta["GoVersion"] = b.gov
 	f.Meta["GOOS"] = b.goos
 	f.Meta["GOARCH"] = b.goarch
-	if u != nil {
-		u.cache.m[path] = f
-	}
+	vcounter.Register("count:"+base, f)
 	return path
 }
 
 // vuPreload gives a further uploader the same parse results (several uploaders over one
 // directory).
 func vuPreload(u, from *uploader) {
-	for k, v := range from.cache.m {
-		u.cache.m[k] = v
-	}
+	// parse results are registered by file content (vcounter): nothing to copy
 }
 
 // vuReport decodes report bytes written to a file or sent to the server.
